@@ -266,7 +266,13 @@ EXTRA11 = {
     "C04": ("block-wire mechanism with the tightened packing rule of the origin-clock column", "Also decides how the v2 origin-clock column packs negative runs."),
     "C06": ("every kind of slice is trimmed (kinds_reaching over BlockSlice)", "Also decides that Skip slices are trimmed like GC slices."),
     "C07": ("R-TABLE subscription ↔ event list", "Also decides that v1 / v2 subscribers are registered on their own list."),
+    "C08": ("pivots of the interpolation searches stay in range; R-GUARD document-free questions about an update (extends, state_vector_lower, insertions)", "Also decides where the first probe of the block searches lands and what the update helpers answer."),
     "C09": ("column codec pairs agree on their primitives", "Also decides the primitive each RLE column travels in."),
+    "C14": ("R-GUARD resolution of an element-relative index (StickyIndex::get_item)", "Also decides which block an element-relative index resolves to."),
+    "C19": ("R-TABLE delta op conversions", "Also decides which Delta variant feeds which C delta constructor."),
+    "C05": ("content mechanism (get_last per kind); delegated content readers", "Also decides which element of an entry's block is its value."),
+    "C01": ("R-SCAN boundary ids of range walks compared as whole ids (identity mechanism)", "Also decides that range boundaries are matched by client and clock."),
+    "C13": ("Options in the block-wire grammar list", "Also decides the wire grammar of a sub-document payload under this property."),
     "C10": ("R-GUARD parse-layer validation sites (checked arithmetic with error propagation)", "Also decides that the range invariants of decoded values are established while parsing."),
     "C11": ("R-TABLE every event kind bubbles (set_current_target)", "Also decides that deep observers see a current target for every kind of event."),
     "C12": ("predicate branch_eq (scope test)", "Also decides what the scope test compares."),
